@@ -11,7 +11,10 @@ Definition drop (n : Z) (l : list Z) : list Z := skipn (Z.to_nat n) l.
 
 (* the UDP datagram built by dispatch_udp_probe_raw (family given by the addresses) *)
 Definition udp_wire (c : rcfg) (sp dp seq : Z) (paris : bool) (payload : list Z) : list Z :=
-  if paris then paris_udp sp dp seq (rc_src c) (rc_dest c)
+  if paris then
+    let u := paris_udp sp dp seq (rc_src c) (rc_dest c) in
+    (* ipv6.rs make_udp_packet sends a computed zero as 0xFFFF before the Paris swap moves it into the payload *)
+    if is_v6 (rc_dest c) && (get_word 4 u =? 0) then put_word 4 65535 u else u
   else
     let u0 := udp_dgram sp dp 0 payload in
     let ck := ip_checksum u0 3 (rc_src c) (rc_dest c) 17 in
